@@ -154,28 +154,26 @@ Lemma unsupported_facts_ok : unsupported_facts = true.
 Proof. vm_cast_no_check (eq_refl true). Qed.
 
 (* ---- a comment on the last line, without a final newline ---- *)
-(* `comment : COMMENT NEWLINE`: a file whose last line ends in a comment and has no final newline
-   is a syntax error AT END OF INPUT; with the newline it is accepted.  (Finding: comments are
-   documented as trivia; the error cites line 0.) *)
+(* `comment : COMMENT NEWLINE`: at the TOKEN level a sequence ending in COMMENT is never accepted
+   (LRConcrete.trailing_comment_rejected, for all sequences).  Since /repo ca58921
+   Parser.parse_string terminates the last line, so the TEXT `... // tail` without a final newline
+   reaches the driver with a NEWLINE appended and is accepted (finding comment-at-eof, fixed). *)
 Definition comment_eof_witness : list nat :=
   toks ["PROTO"; "IDENTIFIER"; "NEWLINE"; "MESSAGE"; "IDENTIFIER"; "{"; "}"; "COMMENT"].
 
 Definition comment_eof_facts : bool :=
-  rejects_at comment_eof_witness (List.length comment_eof_witness)
-  && accepts (comment_eof_witness ++ [nl])
-  && accepts (toks ["PROTO"; "IDENTIFIER"; "NEWLINE"; "MESSAGE"; "IDENTIFIER"; "{"; "}"]).
+  rejects_at comment_eof_witness (List.length comment_eof_witness)       (* the tables, unchanged *)
+  && accepts (text_tokens comment_eof_witness false)                      (* the text path *)
+  && accepts (text_tokens (toks ["PROTO"; "IDENTIFIER"; "COMMENT"]) false)
+  && accepts (text_tokens [] false)
+  && accepts (text_tokens (toks ["PROTO"; "IDENTIFIER"; "NEWLINE"]) false)   (* blanks after the last newline *)
+  && accepts (text_tokens (toks ["PROTO"; "IDENTIFIER"; "NEWLINE"]) true).
 
 Lemma comment_eof_facts_ok : comment_eof_facts = true.
 Proof. vm_cast_no_check (eq_refl true). Qed.
 
-Lemma comment_eof_refuted :
-  exists ts, parse ts = SyntaxError (List.length ts) eof (match parse ts with SyntaxError _ _ rs => rs | _ => [] end) /\
-             (exists rs, parse (ts ++ [term_id "NEWLINE"]) = Accept rs) /\
-             (exists rs, parse (removelast ts) = Accept rs).
-Proof.
-  exists comment_eof_witness. split; [vm_compute; reflexivity|].
-  split; eexists; vm_compute; reflexivity.
-Qed.
+Lemma comment_eof_text_accepted : exists rs, parse_text comment_eof_witness false = Accept rs.
+Proof. eexists. vm_compute. reflexivity. Qed.
 
 (* ---- expressions ---- *)
 Inductive ex : Type := XInt | XBin (o : nat) (a b : ex).      (* o: 0 + , 1 - , 2 * , 3 / *)
